@@ -242,9 +242,16 @@ func DistMatrix(al align.Alignment, weights []float64, model DistModel, range1Mi
 	}
 	wg.Wait()
 
+	// Undefined distances are replaced by twice the largest distance of the matrix.
+	// Without any positive distance there is nothing to derive a replacement from:
+	// they stay infinite (and not 0)
+	replacement := 2 * max
+	if max == 0 {
+		replacement = math.Inf(1)
+	}
 	for _, sp := range uncompute {
-		outmatrix[sp.i][sp.j] = 2 * max
-		outmatrix[sp.j][sp.i] = 2 * max
+		outmatrix[sp.i][sp.j] = replacement
+		outmatrix[sp.j][sp.i] = replacement
 	}
 
 	return
